@@ -13,5 +13,6 @@ CONSTANTS
   ListAns = {}
   MaxItems = 1
   Layouts = {"flat2", "g121"}
+  TableOnly = {"g1212"}
   OkRecomputed = FALSE
 PROPERTY Terminates
